@@ -11,6 +11,7 @@ Proof.
   intros m f H o. unfold roundtrip, decode, encode, carried_b in *.
   destruct (wire_of m f) as [w|]; [|discriminate].
   destruct (src_of m w) as [f'|]; [|discriminate].
+  apply andb_prop in H. destruct H as [H G]. apply negb_true_iff in G. rewrite G. cbn [andb].
   apply String.eqb_eq in H. subst. reflexivity.
 Qed.
 
@@ -20,9 +21,12 @@ Proof.
   intros m f H. unfold roundtrip, decode, encode, carried_b in *.
   destruct (wire_of m f) as [w|].
   - destruct (src_of m w) as [f'|].
-    + exists (fun x => if String.eqb x f then 1%N else 0%N).
-      rewrite H, String.eqb_refl. discriminate.
-    + exists (fun _ => 1%N). discriminate.
+    + destruct (String.eqb f' f) eqn:E.
+      * cbn [andb] in H. apply negb_false_iff in H. apply String.eqb_eq in E. subst f'.
+        exists (fun _ => 1%N). rewrite H. cbn. discriminate.
+      * exists (fun x => if String.eqb x f then 1%N else 0%N).
+        rewrite E, String.eqb_refl. rewrite andb_false_r. discriminate.
+    + exists (fun _ => 1%N). rewrite andb_false_r. discriminate.
   - exists (fun _ => 1%N). discriminate.
 Qed.
 
